@@ -16,7 +16,9 @@
      these notes presuppose that the interrupt machine never saw a signal, and `predRun x {}`
      believes that (`intrAt = none`) although a signal was carried in:
         `C03 … clean-all`  (a run without signal / failure hands out everything), at the return;
-        `C10 … idle below limit l with a ready function unstarted`  (work conservation), at `q`.
+        `C10 … idle below limit l with a ready function unstarted`  (work conservation), at `q`
+        (and its `limit = some 0` form `C10 … limit 0 means unbounded, yet a ready function is
+        unstarted`, added to the monitor later; `cx0_fails_Z` below).
      `preds_holdW_safety_original_false`: the diamond, `PollNextN(3)`, limit 2, a signal received
      by an earlier run (`r0`): the run starts `0` and `2`, is then interrupted with `1` ready and
      not started, and returns `processed = [0, 2]`; both notes are false (and only these two).
@@ -162,7 +164,8 @@ theorem preds_holdW_gen {x : MonCtx} (hx : GoodCtx x) {s0 r0 : Bool} {k0 : Nat} 
 
 /-- **the strongest variant of the assigned statement that is true without a side condition**:
     from `{}`, any carried state: every note of C01, C02, C03, C04, C07, C10 is ok, except possibly
-    the two clean-run notes (`C03 … clean-all`, `C10 … idle below limit …`). -/
+    the clean-run notes (`C03 … clean-all`, `C10 … idle below limit …` and the `limit = some 0` form
+    of the latter, `C10 … limit 0 means unbounded, yet a ready function is unstarted`). -/
 theorem preds_holdW_safety_partial {x : MonCtx} (hx : GoodCtx x) {s0 r0 : Bool} {k0 : Nat}
     {evs : List Ev} {s : PState} (h : ObsRun x (initWith x.c s0 r0 k0) evs s) :
     ∀ n ∈ (predRun x {} evs).2, n.property ∈ safetyProps → n.ok = true ∨ n.isCleanNote := by
@@ -176,8 +179,9 @@ theorem Note.isCleanNote_property {n : Note} (h : n.isCleanNote) : n.property = 
   cases n with
   | cmp => exact h.elim
   | prop p wh b =>
-    rcases h with ⟨h1, _⟩ | ⟨h1, _⟩
+    rcases h with ⟨h1, _⟩ | ⟨h1, _⟩ | ⟨h1, _⟩
     · exact Or.inl h1
+    · exact Or.inr h1
     · exact Or.inr h1
 
 /-- in particular C01, C02, C04, C07 hold of every run from a carried start, whatever the predicate
@@ -322,6 +326,60 @@ example : ¬ (∀ n ∈ (predRun (xDiamond cxCfg_V) {} cxEvents_V).2, n.property
     exact (List.mem_filter.mp this).1
   have := H _ hmem rfl
   cases this
+
+/-! ### the `limit = some 0` form of the work-conservation note is a clean-run note as well
+
+  `Model/Monitor.lean` emits, at `q` of a clean non-sequential run with `limit = some 0` (unbounded),
+  the C10 note `… limit 0 means unbounded, yet a ready function is unstarted`.  Like `idle below
+  limit` it presupposes that the interrupt machine never saw a signal, so `Note.isCleanNote`
+  (`Proofs/VCoup.lean`) lists it as a third clean-run note.  That this is NECESSARY: the same
+  counterexample run with `limit := some 0` — from `{}` the note is false (next to the C06 note,
+  which is outside `safetyProps`, and `clean-all`). -/
+
+def cxCfg0_Z : Cfg := { exCfg_F with strat := .pollN 3, limit := some 0 }
+
+set_option maxRecDepth 100000 in
+theorem cx0_obsRun_Z : ∃ s, ObsRun (xDiamond cxCfg0_Z) (initWith cxCfg0_Z false true 0) cxEvents_V s :=
+  obsRun_of_obsEvents' (l := cxSchedule_V) (by decide)
+
+set_option maxRecDepth 100000 in
+theorem cx0_fails_Z : (predRun (xDiamond cxCfg0_Z) {} cxEvents_V).2.filter (fun n => !n.ok) =
+    [.prop "C06" "q" false,
+     .prop "C10" "q limit 0 means unbounded, yet a ready function is unstarted" false,
+     .prop "C03" "ret state=I processed=0,2 notprocessed=1,3 errs= flow=break clean-all" false] := by
+  decide
+
+/-- from `{}` with a carried signal the new C10 note can be false … -/
+example : ¬ (∀ n ∈ (predRun (xDiamond cxCfg0_Z) {} cxEvents_V).2, n.property = "C10" → n.ok = true) := by
+  intro H
+  have hmem : Note.prop "C10" "q limit 0 means unbounded, yet a ready function is unstarted" false ∈
+      (predRun (xDiamond cxCfg0_Z) {} cxEvents_V).2 := by
+    have : Note.prop "C10" "q limit 0 means unbounded, yet a ready function is unstarted" false ∈
+        (predRun (xDiamond cxCfg0_Z) {} cxEvents_V).2.filter (fun n => !n.ok) := by
+      rw [cx0_fails_Z]; simp
+    exact (List.mem_filter.mp this).1
+  have := H _ hmem rfl
+  cases this
+
+/-- … it is a clean-run note, as `preds_holdW_safety_partial` says of every failing safety note … -/
+example : (Note.prop "C10" "q limit 0 means unbounded, yet a ready function is unstarted" false).isCleanNote :=
+  Or.inr (Or.inr ⟨rfl, "q", rfl⟩)
+
+/-- … and with the driver's seeding all notes of the six properties of this run are ok -/
+example : ∀ n ∈ (predRun (xDiamond cxCfg0_Z) (driverPredSt false true false) cxEvents_V).2,
+    n.property ∈ safetyProps → n.ok = true := by
+  obtain ⟨s, hs⟩ := cx0_obsRun_Z
+  exact preds_holdW_safety_driver (xDiamond_good cxCfg0_Z rfl rfl (by intro h; cases h)) false hs
+
+set_option maxRecDepth 100000 in
+/-- no signal carried in (`k0 = 5` only), `limit := some 0`, the clean complete run: the new note is
+    emitted three times and `preds_holdW_safety` covers it -/
+theorem ok0_obsRun_Z : ∃ s, ObsRun (xDiamond lim0Cfg_Z) (initWith lim0Cfg_Z false false 5) okEvents_Q s :=
+  obsRun_of_obsEvents' (l := okSchedule_Q) (by decide)
+
+example : ∀ n ∈ (predRun (xDiamond lim0Cfg_Z) {} okEvents_Q).2, n.property ∈ safetyProps → n.ok = true := by
+  obtain ⟨s, hs⟩ := ok0_obsRun_Z
+  exact preds_holdW_safety (xDiamond_good lim0Cfg_Z rfl rfl (by intro h; cases h)) ⟨rfl, rfl⟩ hs
 
 /-! ### non-vacuity -/
 
